@@ -215,6 +215,107 @@ Proof.
     rewrite He, andb_false_r. reflexivity.
 Qed.
 
+(* ---- the same with a constant bound on the fuel: the fuel counts the nesting
+   of the recognisers, not the characters (an array that is the left neighbour
+   of a later range is re-read with the fuel of the text after it) ---------------------- *)
+Lemma rep_skip2 n v t rest fuel ll fe ib :
+  1 <= n < 2 ^ 31 -> tokof dec2f dec2d v t -> rest_ok rest -> (2 <= fuel)%nat ->
+  skip_next dec2f dec2d fuel ((dec_nat n ++ 120 :: t) ++ rest) ll fe ib = Ok (rest, 2, 45).
+Proof.
+  intros Hn (Hrd & (c & r & -> & Hc) & Hsc) Hr Hl.
+  destruct (dec_nat_hd n ltac:(lia)) as (d & tl & E & Hd).
+  pose proof (dec_nat_digits n ltac:(lia)) as Hds. rewrite E in Hds.
+  assert (Htl : Forall (fun c => isdigit c = true) tl) by now inversion Hds.
+  assert (Hmult : is_range_multiplier ((dec_nat n ++ 120 :: c :: r) ++ rest) = true).
+  { rewrite E. cbn [app is_range_multiplier]. rewrite <- app_assoc.
+    rewrite dropwhile_app by (try assumption; reflexivity). cbn [app]. rewrite hd0_cons.
+    replace (isdigit (48 + d)) with true by (symmetry; apply isdigit_spec; lia).
+    now replace (48 + d =? 48) with false by lia. }
+  assert (Hfc : first_class (48 + d) = FC_other) by (apply first_class_num; lia).
+  destruct (Hrd rest Hr) as [Hs Hsn].
+  destruct fuel as [|[|f]]; try lia. remember (S f) as f1 eqn:Ef. cbn [skip_next].
+  unfold skip_core. rewrite Hmult. rewrite E at 1. cbn [app]. rewrite Hfc.
+  unfold after_x. rewrite <- app_assoc. cbn [app].
+  rewrite E at 1. cbn [app].
+  change ((48 + d) :: tl ++ 120 :: c :: r ++ rest) with (((48 + d) :: tl) ++ 120 :: (c :: r) ++ rest).
+  rewrite dropwhile_notx by (constructor; [apply isdigit_spec; lia|assumption]).
+  cbn [skipn]. subst f1. rewrite Hs. destruct Hr as [_ He]. rewrite He, andb_false_r. reflexivity.
+Qed.
+
+Lemma item_skip_t2 p it rest recent fuel ib :
+  item_ok p it -> rest_ok rest -> recentrel p recent (item_text it ++ rest) ->
+  (2 <= fuel)%nat ->
+  skip_next dec2f dec2d fuel (item_text it ++ rest) recent true ib
+  = Ok (rest, Z.of_nat (length (item_slots it)), ity it).
+Proof.
+  intros Hok Hr Hrec Hf. destruct it as [v t|n v t|k b d m last sp]; cbn [item_ok item_text item_slots ity] in *.
+  - destruct Hok as [(Hrd & (c & r & -> & _) & _) _]. destruct fuel; [lia|].
+    apply (Hrd rest Hr).
+  - destruct Hok as (Hn & Htk & _). now apply (rep_skip2 n v t).
+  - destruct Hok as (Hrun & Hsp & Hctx).
+    destruct fuel as [|[|f]]; try lia.
+    destruct (chk_recent dec2f dec2d k b d m last sp rest p recent f ib Hrun Hsp Hr Hrec Hctx) as (u & la & Hchk & Hdis).
+    exact (skip_tail dec2f dec2d k b d m last sp rest f recent ib u la Hrun Hsp Hr Hchk Hdis).
+Qed.
+
+Lemma skip_array_iseq2 its T p : iseq p its T -> its <> [] ->
+  forall R0 fuel f recent k aty, rest_ok R0 -> hd0 R0 = 93 -> recentrel p recent (T ++ R0) ->
+  atys_ok aty its -> (length its < fuel)%nat -> (2 <= f)%nat ->
+  skip_array_loop (skip_next dec2f dec2d f) fuel (T ++ R0) recent k aty
+  = Ok (R0, k + Z.of_nat (length (islots its))).
+Proof.
+  induction 1 as [p|p it Hok|p it sep it' its T Hok Hsep HL IH]; intros Hne R0 fuel f recent k aty HR H93 Hrec Hty Hfu Hf;
+    [congruence| |].
+  - destruct fuel as [|[|fuel]]; try (cbn [length] in Hfu; lia).
+    destruct (item_first dec2f dec2d _ _ Hok) as (c & r & E & Hc).
+    destruct Hc as (H0 & H47 & H37 & Hsp & H46 & H40 & H93c).
+    assert (Hh : hd0 (item_text it ++ R0) = c) by (rewrite E; reflexivity).
+    remember (S fuel) as f1. cbn [skip_array_loop]. rewrite Hh.
+    replace ((c =? 0) || (c =? 93)) with false by lia.
+    rewrite (item_skip_t2 p it R0 recent f true Hok HR Hrec Hf).
+    destruct Hty as [Hty _]. rewrite Hty.
+    destruct R0 as [|c0 r0]; [discriminate|]. rewrite hd0_cons in H93. subst c0.
+    rewrite skip_ws_nonspace by reflexivity. subst f1. cbn [skip_array_loop]. rewrite hd0_cons. cbn [Z.eqb orb].
+    replace (93 =? 0) with false by reflexivity. cbn [orb]. replace (93 =? 93) with true by reflexivity.
+    f_equal. f_equal. unfold islots. cbn [map concat]. now rewrite app_nil_r.
+  - destruct fuel; [lia|].
+    destruct (item_first dec2f dec2d _ _ Hok) as (c & r & E & Hc).
+    destruct (iseq_first _ _ _ _ _ _ HL) as (c' & r' & -> & Hc').
+    pose proof (rest_ok_sep sep c' (r' ++ R0) Hsep Hc') as Hro.
+    destruct Hc as (H0 & H47 & H37 & Hsp & H46 & H40 & H93c).
+    rewrite <- !app_assoc. rewrite <- !app_assoc in Hrec. cbn [app] in *.
+    assert (Hh : forall X, hd0 (item_text it ++ X) = c) by (intros; rewrite E; reflexivity).
+    cbn [skip_array_loop]. rewrite Hh.
+    replace ((c =? 0) || (c =? 93)) with false by lia.
+    rewrite (item_skip_t2 p it _ recent f true Hok Hro Hrec Hf).
+    destruct Hty as [Hty Hty2]. rewrite Hty.
+    destruct Hc' as (H0' & H47' & H37' & Hsp' & H46' & H40').
+    rewrite skip_ws_sep by (try apply Hsep; now rewrite hd0_cons).
+    change (c' :: r' ++ R0) with ((c' :: r') ++ R0).
+    rewrite (IH ltac:(discriminate) R0 fuel f _ _ _ HR H93).
+    + f_equal. f_equal. unfold islots. cbn [map concat]. rewrite !app_length. lia.
+    + cbn [ListProofs.recentrel]. exists p, it, sep. repeat split; try assumption; apply Hsep.
+    + exact Hty2.
+    + cbn [length] in *. lia.
+    + exact Hf.
+Qed.
+
+Lemma array_skip2 its T : iseq None its T -> its <> [] -> atys_ok 0 its ->
+  forall rest, rest_ok rest ->
+  forall f ll fe ib, (2 <= f)%nat ->
+     skip_next dec2f dec2d (S f) (91 :: T ++ 93 :: rest) ll fe ib
+     = Ok (rest, 1 + Z.of_nat (length (islots its)), 97).
+Proof.
+  intros HL Hne Hty rest Hr f ll fe ib H. destruct its as [|it its]; [congruence|].
+  pose proof (iseq_len _ _ _ HL) as Hlen. destruct Hr as [Hr0 He].
+  cbn [skip_next]. unfold skip_core. change (first_class 91) with FC_lb. cbv beta iota.
+  cbn [skipn]. rewrite (iseq_skip_ws _ _ _ _ _ HL).
+  rewrite (skip_array_iseq2 _ _ _ HL Hne (93 :: rest) _ f None 1 0 (rest_ok_close rest) eq_refl eq_refl Hty);
+    [|cbn [length]; rewrite app_length; cbn [length] in *; lia|exact H].
+  rewrite hd0_cons. replace (93 =? 93) with true by reflexivity. cbn [skipn].
+  rewrite He, andb_false_r. reflexivity.
+Qed.
+
 (* the empty array *)
 Lemma empty_array_reads rest : rest_ok rest ->
   (forall f ll fe ib, skip_next dec2f dec2d (S f) (91 :: 93 :: rest) ll fe ib = Ok (rest, 1, 97)) /\
@@ -241,18 +342,44 @@ Section PrintArr.
 Variables dec2f dec2d : list Z -> Z.
 Variable o : popts.
 Variable parr : parr_t.
+Variable fu : nat.        (* the element printer is print_arg_val_f (S (S fu)): the fuel counts the nesting *)
 Variables zf zd : Z.
 Hypothesis Hz : zchoice zf zd.
+Notation pavf := (print_arg_val_f (S (S fu))).
 Notation item_ok := (item_ok dec2f dec2d).
 Notation iter_text := (iter_text dec2f dec2d).
 Notation iseq_from := (iseq_from dec2f dec2d).
 
 (* one iteration, compression on or off *)
+Lemma print_iter_any_sa a0 rest size prev t tmp cols cols1 bb cv :
+  goodc o zf zd a0 -> Forall (goodca o zf zd) rest -> Z.of_nat (length (a0 :: rest)) < 2 ^ 31 ->
+  convert_to_range o (a0 :: rest) size = cv -> cv <> CUnmod ->
+  pavf o (match cv with CYes c _ => c | _ => a0 :: rest end) cols prev = Some (t, tmp, cols1, bb) ->
+  exists its inc,
+    bb = false /\ tmp = len t /\
+    Z.of_nat inc = (match cv with CYes _ kk => kk | _ => next_arg_offset (a0 :: rest) end) /\
+    (1 <= inc <= length (a0 :: rest))%nat /\
+    iorig its = firstn inc (a0 :: rest) /\ iter_text prev its t /\
+    nth_error (a0 :: rest) (inc - 1) = ilast its /\
+    (match cv with CYes _ _ => Z.of_nat inc <= size | _ => inc = 1%nat end) /\ first_notconf prev its.
+Proof.
+  intros Hg0 Hgr Hlen Hcv Hnu Hp. destruct (compress o) eqn:Ec.
+  - exact (print_iter_sa dec2f dec2d o Ec zf zd Hz fu a0 rest size prev t tmp cols cols1 bb cv Hg0 Hgr Hlen Hcv Hnu Hp).
+  - unfold convert_to_range in Hcv. rewrite Ec in Hcv. cbn [negb] in Hcv. rewrite !orb_true_r in Hcv. subst cv.
+    destruct (goodc_facts o zf zd a0 Hg0) as (Hs0 & _ & _).
+    rewrite (pav_scalar o a0 rest cols prev (S fu) Hs0) in Hp.
+    destruct (print_scalar o a0 cols) as [[[t' w'] c']|] eqn:Eps; [|discriminate]. inversion Hp; subst.
+    destruct (goodc_tok dec2f dec2d o zf zd a0 cols t tmp cols1 Hg0 Eps) as (Htk & Hnd & Hw).
+    exists [IVal a0 t], 1%nat. split; [reflexivity|]. split; [exact Hw|].
+    split; [destruct a0; cbn in Hs0; try contradiction; reflexivity|]. split; [cbn [length]; lia|].
+    split; [reflexivity|]. split; [split; [reflexivity|split; assumption]|]. split; [reflexivity|]. split; [reflexivity|exact I].
+Qed.
+
 Lemma print_iter_any a0 rest size prev t tmp cols cols1 bb cv :
   Forall (goodc o zf zd) (a0 :: rest) -> Z.of_nat (length (a0 :: rest)) < 2 ^ 31 ->
   (forall p, prev = Some p -> scalar p) ->
   convert_to_range o (a0 :: rest) size = cv -> cv <> CUnmod ->
-  print_arg_val o (match cv with CYes c _ => c | _ => a0 :: rest end) cols prev = Some (t, tmp, cols1, bb) ->
+  pavf o (match cv with CYes c _ => c | _ => a0 :: rest end) cols prev = Some (t, tmp, cols1, bb) ->
   exists its inc,
     bb = false /\ tmp = len t /\
     Z.of_nat inc = (match cv with CYes _ kk => kk | _ => next_arg_offset (a0 :: rest) end) /\
@@ -260,16 +387,11 @@ Lemma print_iter_any a0 rest size prev t tmp cols cols1 bb cv :
     iorig its = firstn inc (a0 :: rest) /\ iter_text prev its t /\
     nth_error (a0 :: rest) (inc - 1) = ilast its.
 Proof.
-  intros Hg Hlen Hprev Hcv Hnu Hp. destruct (compress o) eqn:Ec.
-  - exact (print_iter dec2f dec2d o Ec zf zd Hz a0 rest size prev t tmp cols cols1 bb cv Hg Hlen Hprev Hcv Hnu Hp).
-  - unfold convert_to_range in Hcv. rewrite Ec in Hcv. cbn [negb] in Hcv. rewrite !orb_true_r in Hcv. subst cv.
-    pose proof (Forall_inv Hg) as Hg0. destruct (goodc_facts o zf zd a0 Hg0) as (Hs0 & _ & _).
-    unfold print_arg_val in Hp. rewrite (pav_scalar o a0 rest cols prev 5 Hs0) in Hp.
-    destruct (print_scalar o a0 cols) as [[[t' w'] c']|] eqn:Eps; [|discriminate]. inversion Hp; subst.
-    destruct (goodc_tok dec2f dec2d o zf zd a0 cols t tmp cols1 Hg0 Eps) as (Htk & Hnd & Hw).
-    exists [IVal a0 t], 1%nat. split; [reflexivity|]. split; [exact Hw|].
-    split; [destruct a0; cbn in Hs0; try contradiction; reflexivity|]. split; [cbn [length]; lia|].
-    split; [reflexivity|]. split; [split; [reflexivity|split; assumption]|reflexivity].
+  intros Hg Hlen _ Hcv Hnu Hp.
+  destruct (print_iter_any_sa a0 rest size prev t tmp cols cols1 bb cv (Forall_inv Hg)) as (its & inc & A & B & C & D & E & F & G & _);
+    try assumption.
+  - eapply Forall_impl; [|exact (Forall_inv_tail Hg)]. intros a Ha. now left.
+  - exists its, inc. auto 10.
 Qed.
 
 (* what one iteration emits joins what the later ones emit *)
@@ -296,22 +418,52 @@ Proof.
   - exact (item_scalar_last _ _ _ _ (proj2 (proj2 Hit))).
 Qed.
 
+Lemma nth_last_app {A} (l1 l2 : list A) : l2 <> [] ->
+  nth_error (l1 ++ l2) (length (l1 ++ l2) - 1) = nth_error l2 (length l2 - 1).
+Proof.
+  intros H. assert (1 <= length l2)%nat by (destruct l2; [congruence|cbn; lia]).
+  rewrite app_length, nth_error_app2 by lia. f_equal. lia.
+Qed.
+
+Lemma ilast_app its1 its2 : its2 <> [] -> ilast (its1 ++ its2) = ilast its2.
+Proof.
+  intros H. unfold ilast. rewrite rev_app_distr.
+  destruct (rev its2) eqn:E; [|reflexivity].
+  apply (f_equal (@length _)) in E. rewrite rev_length in E. destruct its2; [congruence|discriminate].
+Qed.
+
+Lemma item_orig_pos p it : item_ok p it -> item_orig it <> [].
+Proof.
+  destruct it as [v t|n v t|k b d m last sp]; cbn [ListProofs.item_ok item_orig].
+  - discriminate.
+  - intros (Hn & _). replace (Z.to_nat n) with (S (Z.to_nat n - 1)) by lia. discriminate.
+  - intros ((_ & _ & _ & Hm & _) & _). replace (Z.to_nat m) with (S (Z.to_nat m - 1)) by lia. discriminate.
+Qed.
+
 Definition sp4 : list Z := [32; 32; 32; 32].
 
-(* one iteration of the loop over the elements *)
-Lemma arr_step a0 rest prev i n acc (first bb : bool) wrt cols awtl fuel res :
-  Forall (goodc o zf zd) (a0 :: rest) -> Z.of_nat (length (a0 :: rest)) < 2 ^ 31 ->
-  n + 1 - i = Z.of_nat (length (a0 :: rest)) -> (forall p, prev = Some p -> scalar p) ->
-  print_array_loop print_arg_val parr (S fuel) o (a0 :: rest) prev i n acc first bb wrt cols awtl = Some res ->
+(* one iteration of the loop over the elements; more = what follows the array
+   in the slot list *)
+Lemma arr_step a0 es more prev i n acc (first bb : bool) wrt cols awtl fuel res :
+  Forall (goodc o zf zd) (a0 :: es) -> Forall (goodca o zf zd) more ->
+  Z.of_nat (length ((a0 :: es) ++ more)) < 2 ^ 31 ->
+  n + 1 - i = Z.of_nat (length (a0 :: es)) ->
+  print_array_loop pavf parr (S fuel) o ((a0 :: es) ++ more) prev i n acc first bb wrt cols awtl = Some res ->
   exists its1 inc t (brk : bool) cols2 awtl2,
-    (1 <= inc <= length (a0 :: rest))%nat /\ iorig its1 = firstn inc (a0 :: rest) /\
-    iter_text prev its1 t /\ (forall p, ilast its1 = Some p -> scalar p) /\
-    print_array_loop print_arg_val parr fuel o (skipn inc (a0 :: rest)) (ilast its1) (i + Z.of_nat inc) n
+    (1 <= inc <= length (a0 :: es))%nat /\ iorig its1 = firstn inc (a0 :: es) /\
+    iter_text prev its1 t /\ (forall p, ilast its1 = Some p -> scalar p) /\ first_notconf prev its1 /\
+    nth_error (a0 :: es) (inc - 1) = ilast its1 /\ (awtl = 0 -> brk = false) /\
+    print_array_loop pavf parr fuel o (skipn inc (a0 :: es) ++ more) (ilast its1) (i + Z.of_nat inc) n
       (if first then (if brk then sp4 ++ acc ++ t else acc ++ t)
        else acc ++ (if brk then nl4 else [32]) ++ t)
       false (bb || (first && brk)) (wrt + len t + (if brk then 4 else 0) + 1) (cols2 + 1) awtl2 = Some res.
 Proof.
-  intros Hg Hlen Hn Hprev Hrun. cbn [print_array_loop] in Hrun.
+  intros Hg Hgm Hlen Hn Hrun.
+  set (rest := es ++ more) in *. change ((a0 :: es) ++ more) with (a0 :: rest) in *.
+  assert (Hgr : Forall (goodca o zf zd) rest).
+  { unfold rest. apply Forall_app. split; [|exact Hgm].
+    eapply Forall_impl; [|exact (Forall_inv_tail Hg)]. intros a Ha. now left. }
+  cbn [print_array_loop] in Hrun.
   cbn [length] in Hn. replace (n <? i) with false in Hrun by lia.
   assert (Hty : hd_type (a0 :: rest) =? 97 = false)
     by (destruct (goodc_facts o zf zd a0 (Forall_inv Hg)) as (Hs0 & _); destruct a0; cbn in Hs0; try contradiction; reflexivity).
@@ -319,11 +471,11 @@ Proof.
   1: rewrite Hty in Hrun.
   2: destruct (conv_yes_head o _ _ _ _ Ecv) as (n0 & h0 & r0 & Ec0); rewrite Ec0 in Hrun;
      cbn [hd_type av_type] in Hrun; change (45 =? 97) with false in Hrun; cbv iota in Hrun; rewrite <- Ec0 in Hrun.
-  all: match type of Hrun with context [print_arg_val ?oo ?inp ?cc ?pp] =>
-         destruct (print_arg_val oo inp cc pp) as [[[[t tmp] cols1] bb1]|] eqn:Epr; [|discriminate] end.
+  all: match type of Hrun with context [print_arg_val_f ?ff ?oo ?inp ?cc ?pp] =>
+         destruct (print_arg_val_f ff oo inp cc pp) as [[[[t tmp] cols1] bb1]|] eqn:Epr; [|discriminate] end.
   all: match type of Ecv with _ = ?cv =>
-         destruct (print_iter_any a0 rest (n + 1 - i) prev t tmp cols cols1 bb1 cv Hg Hlen Hprev Ecv ltac:(discriminate) Epr)
-           as (its1 & inc & -> & -> & Hinc & Hrange & Horig & Hit & Hnth) end.
+         destruct (print_iter_any_sa a0 rest (n + 1 - i) prev t tmp cols cols1 bb1 cv (Forall_inv Hg) Hgr Hlen Ecv ltac:(discriminate) Epr)
+           as (its1 & inc & -> & -> & Hinc & Hrange & Horig & Hit & Hnth & Hle & Hnc) end.
   all: cbn [andb] in Hrun; cbv beta iota in Hrun.
   all: destruct (lb_check (linelength o) cols1 (len t) awtl) as [[brk_ cols2] awtl2] eqn:Elb.
   all: rewrite <- Hinc in Hrun.
@@ -331,68 +483,106 @@ Proof.
   all: assert (Hnt : nth_error (a0 :: rest) (Z.to_nat (Z.of_nat inc - 1)) = ilast its1)
          by (replace (Z.to_nat (Z.of_nat inc - 1)) with (inc - 1)%nat by lia; exact Hnth).
   all: rewrite Hsk, Hnt in Hrun.
+  all: assert (Hil : (inc <= length (a0 :: es))%nat) by (cbn [length] in *; lia).
+  all: assert (Hf1 : firstn inc (a0 :: rest) = firstn inc (a0 :: es))
+         by (change (a0 :: rest) with ((a0 :: es) ++ more); rewrite firstn_app;
+             replace (inc - length (a0 :: es))%nat with 0%nat by lia; cbn [firstn]; apply app_nil_r).
+  all: assert (Hs1 : skipn inc (a0 :: rest) = skipn inc (a0 :: es) ++ more)
+         by (change (a0 :: rest) with ((a0 :: es) ++ more); rewrite skipn_app;
+             replace (inc - length (a0 :: es))%nat with 0%nat by lia; reflexivity).
+  all: assert (Hn1 : nth_error (a0 :: es) (inc - 1) = ilast its1)
+         by (rewrite <- Hnth; change (a0 :: rest) with ((a0 :: es) ++ more); symmetry; apply nth_error_app1; lia).
+  all: rewrite Hs1 in Hrun; rewrite Hf1 in Horig.
   all: exists its1, inc, t, brk_, cols2, awtl2.
-  all: split; [exact Hrange|]; split; [exact Horig|]; split; [exact Hit|].
-  all: split; [intros p Ep; exact (iter_last_scalar _ _ _ _ Hit Ep)|exact Hrun].
+  all: split; [lia|]; split; [exact Horig|]; split; [exact Hit|].
+  all: split; [intros p Ep; exact (iter_last_scalar _ _ _ _ Hit Ep)|]; split; [exact Hnc|]; split; [exact Hn1|].
+  all: split; [intros ->; unfold lb_check in Elb; cbn [Z.add Z.ltb Z.compare Pos.compare Pos.compare_cont] in Elb;
+               rewrite andb_false_r in Elb; now inversion Elb|exact Hrun].
 Qed.
 
 (* the iterations after the first *)
-Lemma print_arr_loop_iseq : forall fuel elems prev i n acc bb wrt cols awtl text w c bb',
-  Forall (goodc o zf zd) elems -> Z.of_nat (length elems) < 2 ^ 31 -> n + 1 - i = Z.of_nat (length elems) ->
-  (forall p, prev = Some p -> scalar p) ->
-  print_array_loop print_arg_val parr fuel o elems prev i n acc false bb wrt cols awtl = Some (text, w, c, bb') ->
+Lemma print_arr_loop_iseq : forall fuel elems more prev i n acc bb wrt cols awtl text w c bb',
+  Forall (goodc o zf zd) elems -> Forall (goodca o zf zd) more ->
+  Z.of_nat (length (elems ++ more)) < 2 ^ 31 -> n + 1 - i = Z.of_nat (length elems) ->
+  print_array_loop pavf parr fuel o (elems ++ more) prev i n acc false bb wrt cols awtl = Some (text, w, c, bb') ->
   exists its sfx, text = acc ++ sfx /\ w = wrt + len sfx /\ bb' = bb /\
-    iseq_from true prev its sfx /\ iorig its = elems.
+    iseq_from true prev its sfx /\ iorig its = elems /\
+    (elems <> [] -> nth_error elems (length elems - 1) = ilast its).
 Proof.
-  induction fuel as [|fuel IH]; intros elems prev i n acc bb wrt cols awtl text w c bb' Hg Hlen Hn Hprev Hrun;
+  induction fuel as [|fuel IH]; intros elems more prev i n acc bb wrt cols awtl text w c bb' Hg Hgm Hlen Hn Hrun;
     [discriminate|].
   destruct elems as [|a0 rest].
   - cbn [print_array_loop] in Hrun. cbn in Hn. replace (n <? i) with true in Hrun by lia. inversion Hrun; subst.
-    exists [], []. rewrite app_nil_r. cbn. repeat split; lia.
-  - destruct (arr_step a0 rest prev i n acc false bb wrt cols awtl fuel _ Hg Hlen Hn Hprev Hrun)
-      as (its1 & inc & t & brk & cols2 & awtl2 & Hrange & Horig & Hit & Hsc & Hrun2).
+    exists [], []. rewrite app_nil_r. cbn. repeat split; try lia; try congruence.
+  - destruct (arr_step a0 rest more prev i n acc false bb wrt cols awtl fuel _ Hg Hgm Hlen Hn Hrun)
+      as (its1 & inc & t & brk & cols2 & awtl2 & Hrange & Horig & Hit & Hsc & _ & Hnth & _ & Hrun2).
     assert (Hl2 : length (skipn inc (a0 :: rest)) = (length (a0 :: rest) - inc)%nat) by apply skipn_length.
     assert (Hg2 : Forall (goodc o zf zd) (skipn inc (a0 :: rest)))
       by (rewrite <- (firstn_skipn inc (a0 :: rest)) in Hg; now apply Forall_app in Hg as [_ Hg]).
     cbn [andb] in Hrun2. rewrite orb_false_r in Hrun2.
-    apply IH in Hrun2; [|exact Hg2|rewrite Hl2; cbn [length] in *; lia|rewrite Hl2; cbn [length] in *; lia|exact Hsc].
-    destruct Hrun2 as (its2 & sfx2 & -> & -> & -> & Hseq2 & Horig2).
+    apply IH in Hrun2; [|exact Hg2|exact Hgm|rewrite app_length in *; rewrite Hl2; cbn [length] in *; lia|rewrite Hl2; cbn [length] in *; lia].
+    destruct Hrun2 as (its2 & sfx2 & -> & -> & -> & Hseq2 & Horig2 & Hlast2).
     exists (its1 ++ its2), ((if brk then nl4 else [32]) ++ t ++ sfx2).
     split; [now rewrite <- !app_assoc|]. split; [destruct brk; rewrite !len_app; [change (len nl4) with 5|change (len [32]) with 1]; lia|].
-    split; [reflexivity|]. split.
+    split; [reflexivity|]. split; [|split].
     + apply iter_join; try assumption. destruct brk; [apply sepw_nl4|apply sepw_32].
     + rewrite iorig_app, Horig, Horig2. apply firstn_skipn.
+    + intros _. destruct (skipn inc (a0 :: rest)) as [|x r] eqn:Esk.
+      * assert (its2 = []) by (destruct its2 as [|it2 r2]; [reflexivity|];
+          unfold iorig in Horig2; cbn [map concat] in Horig2; apply app_eq_nil in Horig2 as [E _];
+          cbn [ListProofs.iseq_from] in Hseq2; destruct Hseq2 as (sz & sf & _ & Hok2 & _);
+          destruct (item_orig_pos _ _ Hok2); congruence).
+        subst its2. rewrite app_nil_r. rewrite <- Hnth. f_equal. cbn [length] in *. lia.
+      * specialize (Hlast2 ltac:(discriminate)).
+        rewrite <- (firstn_skipn inc (a0 :: rest)), Esk.
+        rewrite nth_last_app by discriminate. rewrite Hlast2. symmetry. apply ilast_app.
+        destruct its2; [unfold iorig in Horig2; cbn in Horig2; discriminate|discriminate].
 Qed.
 
 (* the whole array *)
-Lemma print_array_iseq n ty elems cols blank text w c bb :
-  Forall (goodc o zf zd) elems -> Z.of_nat (length elems) < 2 ^ 31 -> n = Z.of_nat (length elems) -> elems <> [] ->
-  print_array print_arg_val parr o (VArr ty n :: elems) cols blank = Some (text, w, c, bb) ->
+Lemma print_array_iseq n ty elems more cols blank text w c bb :
+  Forall (goodc o zf zd) elems -> Forall (goodca o zf zd) more ->
+  Z.of_nat (length (elems ++ more)) < 2 ^ 31 -> n = Z.of_nat (length elems) -> elems <> [] ->
+  print_array pavf parr o (VArr ty n :: elems ++ more) cols blank = Some (text, w, c, bb) ->
   exists its T, text = (if bb then sp4 else []) ++ 91 :: T ++ [93] /\ w = len text /\
-    iseq_from false None its T /\ iorig its = elems /\ its <> [].
+    iseq_from false None its T /\ iorig its = elems /\ its <> [] /\
+    nth_error elems (length elems - 1) = ilast its /\ (blank = false -> bb = false).
 Proof.
-  intros Hg Hlen Hn Hne Hrun. unfold print_array in Hrun.
+  intros Hg Hgm Hlen Hn Hne Hrun. unfold print_array in Hrun.
   destruct elems as [|a0 rest]; [congruence|].
   replace (n =? 0) with false in Hrun by (cbn [length] in Hn; lia).
   match type of Hrun with match ?X with _ => _ end = _ => destruct X as [[[[t1 w1] c1] b1]|] eqn:Eloop; [|discriminate] end.
   inversion Hrun; subst text w c bb. clear Hrun.
-  destruct (arr_step a0 rest None 1 n [91] true false 1 (cols + 1) _ _ _ Hg Hlen ltac:(lia) ltac:(discriminate) Eloop)
-    as (its1 & inc & t & brk & cols2 & awtl2 & Hrange & Horig & Hit & Hsc & Hrun2).
+  assert (Hfu : S (length ((a0 :: rest) ++ more)) = S (S (length (rest ++ more)))) by reflexivity.
+  rewrite Hfu in Eloop.
+  destruct (arr_step a0 rest more None 1 n [91] true false 1 (cols + 1) _ _ _ Hg Hgm Hlen ltac:(lia) Eloop)
+    as (its1 & inc & t & brk & cols2 & awtl2 & Hrange & Horig & Hit & Hsc & _ & Hnth & Hbrk & Hrun2).
   assert (Hl2 : length (skipn inc (a0 :: rest)) = (length (a0 :: rest) - inc)%nat) by apply skipn_length.
   assert (Hg2 : Forall (goodc o zf zd) (skipn inc (a0 :: rest)))
     by (rewrite <- (firstn_skipn inc (a0 :: rest)) in Hg; now apply Forall_app in Hg as [_ Hg]).
   cbn [andb orb] in Hrun2.
   apply print_arr_loop_iseq in Hrun2;
-    [|exact Hg2|rewrite Hl2; cbn [length] in *; lia|rewrite Hl2; cbn [length] in *; lia|exact Hsc].
-  destruct Hrun2 as (its2 & sfx2 & -> & -> & -> & Hseq2 & Horig2).
+    [|exact Hg2|exact Hgm|rewrite app_length in *; rewrite Hl2; cbn [length] in *; lia|rewrite Hl2; cbn [length] in *; lia].
+  destruct Hrun2 as (its2 & sfx2 & -> & -> & -> & Hseq2 & Horig2 & Hlast2).
   exists (its1 ++ its2), (t ++ sfx2).
   split; [destruct brk; cbn [app sp4]; rewrite <- ?app_assoc; reflexivity|].
   split; [destruct brk; unfold sp4; rewrite ?len_app; cbn [app]; unfold len; cbn [length];
           rewrite ?app_length; cbn [length]; rewrite ?app_length; lia|].
-  split; [|split].
+  split; [|split; [|split; [|split]]].
+  5: { intros ->. apply Hbrk. cbn [negb]. now rewrite orb_true_r. }
   - change (t ++ sfx2) with ([] ++ t ++ sfx2). apply iter_join; try assumption. reflexivity.
   - rewrite iorig_app, Horig, Horig2. apply firstn_skipn.
   - destruct its1; [cbn [ListProofs.iter_text] in Hit; contradiction|discriminate].
+  - destruct (skipn inc (a0 :: rest)) as [|x r] eqn:Esk.
+    + assert (its2 = []) by (destruct its2 as [|it2 r2]; [reflexivity|];
+        unfold iorig in Horig2; cbn [map concat] in Horig2; apply app_eq_nil in Horig2 as [E _];
+        cbn [ListProofs.iseq_from] in Hseq2; destruct Hseq2 as (sz & sf & _ & Hok2 & _);
+        destruct (item_orig_pos _ _ Hok2); congruence).
+      subst its2. rewrite app_nil_r. rewrite <- Hnth. f_equal. cbn [length] in *. lia.
+    + specialize (Hlast2 ltac:(discriminate)).
+      rewrite <- (firstn_skipn inc (a0 :: rest)), Esk.
+      rewrite nth_last_app by discriminate. rewrite Hlast2. symmetry. apply ilast_app.
+      destruct its2; [unfold iorig in Horig2; cbn in Horig2; discriminate|discriminate].
 Qed.
 End PrintArr.
 
@@ -551,8 +741,10 @@ Proof.
     destruct (single_token_reads [91; 93] 1 [VArr 32 0] ltac:(cbn; lia) eq_refl ltac:(lia) eq_refl
                 (Hs 1%nat None true false) (Hc 1%nat [] 0 true)) as [H1 H2].
     split; [reflexivity|]. split; [exact H1|]. split; [exact H2|]. split; reflexivity.
-  - destruct (print_array_iseq dec2f dec2d o print_arr zf zd Hz _ ty (a0 :: rest) 0 false t tmp cols1 false Hg ltac:(lia) eq_refl
-                ltac:(discriminate) Epa) as (its & T & -> & -> & Hseq & Horig & Hne).
+  - rewrite <- (app_nil_r (a0 :: rest)) in Epa at 2.
+    destruct (print_array_iseq dec2f dec2d o print_arr 4 zf zd Hz _ ty (a0 :: rest) [] 0 false t tmp cols1 false Hg (Forall_nil _)
+                ltac:(rewrite app_nil_r; lia) eq_refl
+                ltac:(discriminate) Epa) as (its & T & -> & -> & Hseq & Horig & Hne & _ & _).
     destruct (iseq_from_iseq dec2f dec2d _ _ _ _ Hseq Hne) as (sepz & T' & -> & HL & ->). cbn [app].
     assert (Hty : atys_ok 0 its).
     { apply (atys_from (a0 :: rest) Hh); [|left; reflexivity].
